@@ -4,7 +4,7 @@
    operators and leaf-value restrictions of Spec/C29Known.v.  Register allocation, pattern emit methods,
    assembling and object output are only searched (tools/props/c29.py). *)
 From Coq Require Import String List.
-From PV Require Import Spec.BurgCoverSpec Spec.IRTrees Spec.C29Known Model.BurgCover Proofs.C29_cover
+From PV Require Import Spec.BurgCoverSpec Spec.IRTrees Spec.C29Known Model.BurgCover Model.C29Synth Proofs.C29_cover
   Proofs.C29_x86_64 Proofs.C29_arm Proofs.C29_thumb Proofs.C29_riscv Proofs.C29_riscv_rvc Proofs.C29_refuted
   Gen.Tab_burg_x86_64 Gen.Tab_burg_arm Gen.Tab_burg_thumb Gen.Tab_burg_riscv Gen.Tab_burg_riscv_rvc.
 Import ListNotations.
@@ -68,6 +68,29 @@ Print Assumptions c29_full_language_refuted_riscv.
 Theorem c29_full_language_refuted_riscv_rvc : exists t, unselected (usable assume_riscv_rvc rules_riscv_rvc) desc_riscv_rvc t.
 Proof. exact (ex_intro _ _ refuted_riscv_rvc). Qed.
 Print Assumptions c29_full_language_refuted_riscv_rvc.
+
+(* synthesized rules (UND<ty>, CALL, ASM): the register class each template really produces (observed by
+   executing it) is the class the target maps the type to, and the rule's non-terminal names that class *)
+Theorem c29_synth_rules_classes_x86_64 :
+  synth_bad desc_x86_64 clsnt_x86_64 synth_x86_64 = [] /\ synth_complete desc_x86_64 synth_x86_64 = true.
+Proof. exact synth_classes_x86_64. Qed.
+Print Assumptions c29_synth_rules_classes_x86_64.
+Theorem c29_synth_rules_classes_arm :
+  synth_bad desc_arm clsnt_arm synth_arm = [] /\ synth_complete desc_arm synth_arm = true.
+Proof. exact synth_classes_arm. Qed.
+Print Assumptions c29_synth_rules_classes_arm.
+Theorem c29_synth_rules_classes_thumb :
+  synth_bad desc_thumb clsnt_thumb synth_thumb = [] /\ synth_complete desc_thumb synth_thumb = true.
+Proof. exact synth_classes_thumb. Qed.
+Print Assumptions c29_synth_rules_classes_thumb.
+Theorem c29_synth_rules_classes_riscv :
+  synth_bad desc_riscv clsnt_riscv synth_riscv = [] /\ synth_complete desc_riscv synth_riscv = true.
+Proof. exact synth_classes_riscv. Qed.
+Print Assumptions c29_synth_rules_classes_riscv.
+Theorem c29_synth_rules_classes_riscv_rvc :
+  synth_bad desc_riscv_rvc clsnt_riscv_rvc synth_riscv_rvc = [] /\ synth_complete desc_riscv_rvc synth_riscv_rvc = true.
+Proof. exact synth_classes_riscv_rvc. Qed.
+Print Assumptions c29_synth_rules_classes_riscv_rvc.
 
 Example c29_nonvacuous :
   in_langb (irtrees desc_arm excl_arm) t_ok "S" = true /\ selects (usable assume_arm rules_arm) t_ok = true.
